@@ -35,6 +35,7 @@ type goResult struct {
 	out   string
 	err   string
 	panic string
+	again string // "" or how a repeated MarshalJSON of the parsed value differs
 }
 
 // goCanon runs the real implementation.
@@ -46,6 +47,17 @@ func goCanon(text string) (r goResult) {
 			return
 		}
 		r.out = string(b)
+		// the canonical form is a function of the content: the object model read from the text gives
+		// the same bytes however often it is asked, and those bytes are what CanonicalJSON gives
+		if obj, err := c14n.UnmarshalJSON(strings.NewReader(text)); err == nil {
+			for k := 1; k <= 3; k++ {
+				m, merr := obj.MarshalJSON()
+				if merr != nil || string(m) != r.out {
+					r.again = fmt.Sprintf("MarshalJSON call %d on the value read from the text gives %q (%v), CanonicalJSON gives %q", k, short(string(m)), merr, short(r.out))
+					break
+				}
+			}
+		}
 	})
 	return
 }
@@ -205,6 +217,8 @@ func judge(c *core.Ctx, cases []*ccase) {
 		for j, r := range rs {
 			if r.panic != "" {
 				fail("", fmt.Sprintf("c14n.CanonicalJSON panicked on %q: %s", short(cs.Texts[j]), r.panic))
+			} else if r.again != "" {
+				fail("", fmt.Sprintf("the canonical form of %q depends on how often it is asked for: %s", short(cs.Texts[j]), r.again))
 			}
 		}
 		anyErr := false
